@@ -577,6 +577,28 @@ var wConsume = &workload{name: "consume", n: 16, bound: boundPlain, consumer: tr
 	})
 }}
 
+// wConsumeLimited: MaxConcurrentFetches(1) over partitions led by two
+// brokers, so that one source holds the only fetch slot while the other is
+// queued in the fetch manager when Close arrives (the default, unlimited
+// configuration never queues a source).
+var wConsumeLimited = &workload{name: "consume-limited", n: 16, bound: boundPlain, consumer: true, build: func(x *netctl.Exec, st *state) {
+	c := twoBrokerTopic(x)
+	preload(x, c, 2)
+	st.client(c,
+		kgo.ConsumePartitions(map[string]map[int32]kgo.Offset{"t": {0: kgo.NewOffset().At(0), 1: kgo.NewOffset().At(0)}}),
+		kgo.FetchMaxWait(500*time.Millisecond),
+		kgo.MaxConcurrentFetches(1),
+	)
+	st.thread("W", func(t *netctl.Thread) {
+		for i := 0; i < 3; i++ {
+			st.step(t, fmt.Sprintf("poll-%d", i))
+			if _, ok := st.poll(5*time.Second, 1); !ok {
+				return
+			}
+		}
+	})
+}}
+
 func groupWorkload(name string, block bool, n int) *workload {
 	w := &workload{name: name, n: n, bound: boundGroup, consumer: true}
 	w.build = func(x *netctl.Exec, st *state) {
@@ -782,6 +804,7 @@ func Plans() []nrun.Plan {
 	}
 	add(wProduce, 1)
 	add(wConsume, 1)
+	add(wConsumeLimited, 1)
 	add(wGroup, 2)
 	add(wGroupBlock, 2)
 	add(wTxn, 1)
